@@ -181,7 +181,6 @@ def rule_c05_r2(model: Model) -> RuleResult:
 
 
 R3_EXEMPT = {
-    'EnumConverter': "member values are interchange scalars (enforced in __init__); .value is written",
     'PatternConverter': "ty_conv is the str/bytes identity converter; .pattern is written",
     'ValueOrListConverter': "delegates through the module-level into_data with self.ty",
 }
@@ -477,8 +476,9 @@ def rule_c05_r5(model: Model) -> RuleResult:
     nz = Normalizer(model, f, cfg)
     r.analysed.add(f.qualname)
     writers: t.Dict[str, t.Set[t.Tuple[str, bool]]] = {}
-    for n in cfg.live_nodes():
-        if n.kind == 'return' and n.ast is not None and n.ast.value is not None:
+    from ..cfg import returned_values
+    for (val_e, n) in returned_values(cfg):
+        if True:
             # which layout? the dominating out_format literal
             layout = None
             for a in cfg.nodes:
@@ -490,7 +490,7 @@ def rule_c05_r5(model: Model) -> RuleResult:
             if layout is None:
                 continue
             # filters are read off the normal form, so a filter applied through a local (pre-filtered list) counts
-            form = nz.expr(n.ast.value, n)
+            form = nz.expr(val_e, n)
             filt: t.Set[t.Tuple[str, bool]] = set()
             for attr in ('exclude', 'init', 'kw_only'):
                 if re.search(r'not TRUTHY\((?:[^()]|\([^()]*\))*\.%s\)' % attr, form):
